@@ -15,7 +15,7 @@ func init() {
 		ID: "C13", Level: "exploration", PanicClause: "C13.panic",
 		Cases: func(tier string) int {
 			if tier == "quick" {
-				return 2500
+				return 6000
 			}
 			return 100000
 		},
